@@ -218,7 +218,7 @@ func Delete(seq Sequence, offset, length int) Sequence {
 	info = tryExpand(info, offset, -length)
 	seq = WithInfo(seq, info)
 
-	ff := seq.Features()
+	ff := append(FeatureSlice(nil), seq.Features()...)
 	for i, f := range ff {
 		ff[i].Loc = f.Loc.Expand(offset, -length)
 	}
